@@ -8,29 +8,25 @@ DepthMon g_dm;
 thread_local int tl_bodyNest = 0;
 static thread_local uintptr_t tl_stackTop = 0;
 
+// Depth relative to the first monitored body this thread ever ran (a worker's first body sits at the
+// constant depth of the pool's thread loop; the case driver thread is fresh for every case). The
+// stack top reported by pthread_getattr_np is not used as the base because the static TLS block
+// lives there and is several hundred KiB in sanitizer builds.
 long stackDepthHere(const void* probe) {
-  if (!tl_stackTop) {
-    pthread_attr_t a;
-    void* addr = nullptr;
-    size_t sz = 0;
-    if (pthread_getattr_np(pthread_self(), &a) == 0) {
-      pthread_attr_getstack(&a, &addr, &sz);
-      pthread_attr_destroy(&a);
-    }
-    tl_stackTop = reinterpret_cast<uintptr_t>(addr) + sz;
-    if (!tl_stackTop) tl_stackTop = reinterpret_cast<uintptr_t>(probe);
-  }
-  return static_cast<long>(tl_stackTop - reinterpret_cast<uintptr_t>(probe));
+  uintptr_t p = reinterpret_cast<uintptr_t>(probe);
+  if (!tl_stackTop) tl_stackTop = p;
+  return p < tl_stackTop ? static_cast<long>(tl_stackTop - p) : 0;
 }
 
 void depthCapExceeded(long stack, long nest) {
   int e = 0;
   if (g_dm.tripped.compare_exchange_strong(e, 1)) {
-    vrt::violation("inline execution nested beyond every constant bound: the run was stopped before the stack overflowed",
+    vrt::violation("inline execution nested beyond every constant bound",
                    J().kv("stackBytes", stack).kv("nestedBodies", nest).kv("capStack", g_dm.capStack.load()).kv("capNest", g_dm.capNest.load()), "unbounded");
-    _exit(5);
   }
-  for (;;) pause();
+  // keep going while the stack is in no danger (the sizes used fit an 8 MiB stack); otherwise stop
+  // the run before it overflows
+  if (stack > g_dm.hardStop.load(std::memory_order_relaxed)) _exit(5);
 }
 
 void c46Overload(dispenso::ThreadPool& pool, dispenso::ConcurrentTaskSet& aux, int hold, int mult) {
@@ -237,6 +233,7 @@ void runC46() {
     pthread_attr_destroy(&a);
   }
   g_dm.capStack.store(small ? 256 * 1024 : 512 * 1024);
+  g_dm.hardStop.store(small ? 256 * 1024 : 5 * 1024 * 1024);
   for (long idx = 0; idx < cases; ++idx) {
     if (!vrt::selected(idx)) continue;
     vrt::Rng r = vrt::caseRng(idx);
@@ -254,6 +251,7 @@ void runC46() {
     std::string key = std::string(kShapeNames[s.shape]) + "/" + variantName(s) + "/" + (s.pool == 0 ? "pool0" : s.pool == 1 ? "pool1" : "poolN") + "/" + (s.load ? "loaded" : "idle") + "/" + (s.rootOnPool ? "from-worker" : "from-external");
     J spec = J().kv("shape", kShapeNames[s.shape]).kv("variant", variantName(s)).kv("pool", s.pool).kv("mult", s.mult).kv("load", s.load).kv("rootOnPool", s.rootOnPool).kv("n", s.n).kv("n8", s.n * 8).kv("smallstack", small);
     vrt::caseBegin(idx, key, spec);
+    g_dm.tripped.store(0);
     vrt::watchdogArm();
     Obs46 o1, o8;
     {
